@@ -293,7 +293,11 @@ func (c *VirtualTable) BestIndex(input []IndexInput, order []OrderInput) (*Index
 		desc = &a
 	}
 	if *desc {
-		out.IdxStr = "desc " + out.IdxStr
+		// mast's Cursor.Backward skips subtrees (or fails) on trees with more
+		// than one node, so descending scans would silently lose rows. Scan
+		// ascending and leave the sorting to SQLite.
+		out.AlreadyOrdered = false
+		out.IdxStr = "asc  " + out.IdxStr
 	} else {
 		out.IdxStr = "asc  " + out.IdxStr
 	}
